@@ -718,7 +718,7 @@ package ro
 // ---------------------------------------------------------------------------
 
 //@ operator RetryWithConfig
-//@   props C15 C09 C14 C04 C08
+//@   props C15 C09 C14 C04 C08 C16
 //@   scope ctx destination err lastCtx lastErr opts retries shouldRetry source subscriberCtx value
 //@   alias attempt=source.SubscribeWithContext()
 //@   on next(ctx, value) when opts.ResetOnSuccess : emits Next(ctx, value) ; post retries' == 0
